@@ -109,6 +109,8 @@ pub fn translate(src: &str, opts: &Options) -> Res<String> {
         has_panic: false,
         ret: Ty::Unit,
         closures: vec![],
+        intos: vec![],
+        into_params: vec![],
         deceq: BTreeSet::new(),
         inh: BTreeSet::new(),
         match_depth: 0,
@@ -166,6 +168,9 @@ pub fn translate(src: &str, opts: &Options) -> Res<String> {
     }
     for (k, l) in &opts.field_map {
         note!(tr, renames, format!("`{k}` is the field `{l}`"));
+    }
+    for (k, l) in &opts.variant_map {
+        note_once(&mut tr.notes.variants, format!("`{k}` is `{l}`"));
     }
     let mut struct_defs: Vec<Vec<String>> = vec![];
     for s in &opts.structs {
@@ -231,6 +236,7 @@ pub fn translate(src: &str, opts: &Options) -> Res<String> {
     section("references:", &n.refs);
     section("dropped fields:", &n.dropped);
     section("field names (the Lean records are the hand model's):", &n.renames);
+    section("enum variants (as terms and as patterns; `$1`, … are the variant's fields):", &n.variants);
     out.push_str("-/\n");
     if tr.tuple_state {
         out.push_str("set_option linter.unusedVariables false -- a state tuple `(self, x)` may bind an `x` that is not read afterwards\n");
